@@ -48,13 +48,13 @@ THEOREMS = [
     ("Kopf.Props.C18", "Kopf.C18.error_priority"),
     ("Kopf.Props.C18", "Kopf.C18.status_code_message"),
     ("Kopf.Props.C18", "Kopf.C18.warnings_order"),
+    ("Kopf.Props.C18", "Kopf.C18.prio_strict_order"),
     ("Kopf.Props.C18", "Kopf.C18.gate_spec"),
     ("Kopf.Props.C18", "Kopf.C18.select_spec"),
     ("Kopf.Props.C18", "Kopf.C18.gate_ignores_operations_witness"),
     ("Kopf.Props.C18", "Kopf.C18.apply_total_on_welltyped"),
     ("Kopf.Props.C18", "Kopf.C18.fidelity_partial"),
     ("Kopf.Props.C18", "Kopf.C18.apply_error_witness"),
-    ("Kopf.Props.C18", "Kopf.C18.apply_error_of_leafful"),
     ("Kopf.Props.C18", "Kopf.C18.fidelity_unguarded_witness"),
     ("Kopf.Props.C18", "Kopf.C18.dropEmpty_leafEq"),
 ]
@@ -63,6 +63,7 @@ TIE_THEOREMS = [
     ("Kopf.Tie.C18", "Kopf.C18.Tie.admission_is_permanent"),
     ("Kopf.Tie.C18", "Kopf.C18.Tie.gate_eq"),
     ("Kopf.Tie.C18", "Kopf.C18.Tie.subresource_eq"),
+    ("Kopf.Tie.C18", "Kopf.C18.Tie.match_has_subresource"),
 ]
 RULE = ("three seeded streams: (patch) k8s-shaped and random bodies, patch derived key-by-key from the body "
         "(skip/delete/overwrite/type change scalar<->mapping/list/nested merge/empty mapping/leafless mapping/"
@@ -88,6 +89,7 @@ ASSUMPTIONS = [
 SIG_F4 = {"site": "Patch._apply_patch", "shape": "mapping patched over non-mapping target raises TypeError"}
 SIG_EMPTY = {"site": "Patch._apply_patch", "shape": "leafless mapping patched over non-mapping target is ignored"}
 SIG_LISTBOOL = {"site": "jsonpatch.from_diff", "shape": "bool vs equal int inside a list is not diffed"}
+SIG_MOVE = {"site": "jsonpatch.from_diff", "shape": "move out of a list uses a stale index"}
 SIG_OPS = {"site": "WebhooksRegistry.iter_handlers", "shape": "handler.operations not compared with the request operation"}
 
 # =================================================================================================
@@ -521,6 +523,7 @@ def _flip_boolint(xs: list) -> list | None:
 def gen_patch(r: random.Random, body: dict, depth: int, tags: set[str], heat: float, protect: bool = False) -> dict:
     """patch derived from the body; `heat` scales the rate of ill-typed (mapping over non-mapping) instructions."""
     patch: dict[str, Any] = {}
+    moved_to: list[Any] = []
     for k, v in body.items():
         if protect and depth == 0 and k == "metadata":
             continue
@@ -538,6 +541,13 @@ def gen_patch(r: random.Random, body: dict, depth: int, tags: set[str], heat: fl
             if flipped is not None and r.random() < 0.5:
                 tags.add("list-boolint-flip")
                 patch[k] = flipped
+            elif isinstance(v, list) and v and r.random() < 0.5:
+                # an element leaves the list and its value shows up under another key (diffed as a `move`)
+                tags.add("list-elem-moved")
+                i = r.randrange(len(v))
+                patch[k] = [copy.deepcopy(x) for j, x in enumerate(v) if j != i] if r.random() < 0.5 else \
+                    [copy.deepcopy(x) if j != i else gen_scalar(r, nulls=False) for j, x in enumerate(v)]
+                moved_to.append(copy.deepcopy(v[i]))
             else:
                 tags.add("overwrite-list")
                 patch[k] = gen_list(r, depth)
@@ -570,6 +580,11 @@ def gen_patch(r: random.Random, body: dict, depth: int, tags: set[str], heat: fl
     for nk in r.sample(KEYS, r.choice([0, 0, 1, 1, 2])):
         if nk not in body:
             patch[nk] = gen_new(r, depth, tags)
+    for x in moved_to:
+        if x is not None:
+            nk = r.choice(KEYS)
+            if nk not in body and nk not in patch:
+                patch[nk] = x if not isinstance(x, dict) or x else 1
     return patch
 
 
@@ -754,8 +769,11 @@ def oracle_response(res: Result, resp: dict, raised: list[dict | None], warnings
                  {"site": "admission.build_response", "shape": "warnings differ from those issued, in order"})
 
 
-def oracle_patch(res: Result, body: dict, patch: dict, fn_objs: list, ops: Any, exc: BaseException | None) -> Any:
-    """fidelity of the JSON patch; returns the patched object (or None)."""
+def oracle_patch(res: Result, body: dict, patch: dict, fn_objs: list, ops: Any, exc: BaseException | None,
+                 to_be: Any = None) -> Any:
+    """Fidelity of the JSON patch; returns the patched object (or None). The verdict compares the
+    independently patched object with the independent merge (+ fns) up to empty mappings. `to_be` (the
+    real mechanism's intermediate body) is used only to *classify* a failure for the findings list."""
     hits = nonmapping_hits(body, patch) if patch else set()
     if exc is not None:
         res.result = err_tag(exc)
@@ -785,23 +803,37 @@ def oracle_patch(res: Result, body: dict, patch: dict, fn_objs: list, ops: Any, 
     if eq_strict(strip_empty(got), strip_empty(want)):
         return got
     res.result = "mismatch"
-    explained = False
-    for prune, loose, sigs in [(True, False, [SIG_EMPTY]), (False, True, [SIG_LISTBOOL]), (True, True, [SIG_EMPTY, SIG_LISTBOOL])]:
-        if prune and "leafless" not in hits:
-            continue
-        try:
-            w2 = want_for(prune_leafless(body, patch) if prune else patch)
-        except Exception:
-            continue
-        same = (eq_loose_lists if loose else eq_strict)(strip_empty(got), strip_empty(w2))
-        if same:
-            for s in sigs:
-                res.fail(f"patched object {leanio.canon(got)[:300]} differs from the requested {leanio.canon(want)[:300]} ({s['shape']})", s)
-            explained = True
-            break
-    if not explained:
-        res.fail(f"patched object {leanio.canon(got)[:400]} is not the requested {leanio.canon(want)[:400]} (up to empty mappings)",
-                 {"site": "Patch.as_json_patch", "shape": "json patch does not yield the merged object"})
+    sigs: list[dict] = []
+    generic = to_be is None
+    if to_be is not None:
+        # (A) the merge mechanism against the reference
+        if not eq_strict(strip_empty(to_be), strip_empty(want)):
+            ok_a = False
+            if "leafless" in hits:
+                try:
+                    ok_a = eq_strict(strip_empty(to_be), strip_empty(want_for(prune_leafless(body, patch))))
+                except Exception:
+                    ok_a = False
+            if ok_a:
+                sigs.append(SIG_EMPTY)
+            else:
+                generic = True
+        # (B) the diff against the mechanism's own result
+        if not eq_strict(got, to_be):
+            if eq_loose_lists(got, to_be):
+                sigs.append(SIG_LISTBOOL)
+            elif any(op.get("op") == "move" for op in ops):
+                sigs.append(SIG_MOVE)
+            elif not eq_strict(strip_empty(got), strip_empty(to_be)):
+                generic = True
+        if not sigs:
+            generic = True
+    text = f"patched object {leanio.canon(got)[:400]} is not the requested {leanio.canon(want)[:400]} (up to empty mappings)"
+    if generic:
+        res.fail(text, {"site": "Patch.as_json_patch", "shape": "json patch does not yield the merged object"})
+    else:
+        for sg in sigs:
+            res.fail(text + f" [{sg['shape']}]", sg)
     return got
 
 
@@ -828,7 +860,7 @@ def eval_patch(env: dict, case: dict) -> Result:
         ops = patches.Patch(copy.deepcopy(patch), fns=fn_objs).as_json_patch(copy.deepcopy(body))
     except Exception as e:
         exc = e
-    got = oracle_patch(res, body, patch, fn_objs, ops, exc)
+    got = oracle_patch(res, body, patch, fn_objs, ops, exc, impl1[1] if impl1[0] == "ok" else None)
     if ops is not None:
         for op in ops:
             res.tags.append("op:" + str(op.get("op")))
@@ -836,7 +868,7 @@ def eval_patch(env: dict, case: dict) -> Result:
     res.reqs.append(("apply(_apply_patch+fns)", ["C18.apply", body, patch, fns], impl1))
     if got is not None and not (patch or fns):
         pass
-    elif got is not None and not any(s in (SIG_LISTBOOL,) for _, s in res.fails):
+    elif got is not None and not any(s in (SIG_LISTBOOL, SIG_MOVE) for _, s in res.fails):
         res.reqs.append(("apply(json patch applied)", ["C18.apply", body, patch, fns], ["ok", got]))
     elif exc is not None:
         res.reqs.append(("apply(as_json_patch error)", ["C18.apply", body, patch, fns], ["err", err_tag(exc)]))
@@ -994,8 +1026,18 @@ async def eval_serve(env: dict, case: dict) -> Result:
         except Exception as e:
             res.fail(f"undecodable patch in the response: {e}", {"site": "admission.build_response", "shape": "patch encoding"})
             ops = []
-    got = oracle_patch(res, body, content, fn_objs, ops, None)
-    if got is not None and (content or fns_decl) and not any(s == SIG_LISTBOOL for _, s in res.fails):
+    to_be = None
+    try:
+        tb = copy.deepcopy(body)
+        pp = env["patches"].Patch(copy.deepcopy(content), fns=fn_objs)
+        pp._apply_patch(tb, (), dict(pp))
+        for fn in pp.fns:
+            fn(tb)
+        to_be = tb
+    except Exception:
+        to_be = None
+    got = oracle_patch(res, body, content, fn_objs, ops, None, to_be)
+    if got is not None and (content or fns_decl) and not any(s in (SIG_LISTBOOL, SIG_MOVE) for _, s in res.fails):
         res.reqs.append(("apply(serve json patch applied)", ["C18.apply", body, content, fns_decl], ["ok", got]))
     # ---- allowed / status / warnings
     oracle_response(res, resp, raised_list, issued)
@@ -1087,12 +1129,12 @@ def absorb(ctx: Ctx, out: dict, ask: bool = True) -> None:
     for s in out["samples"]:
         if len(ctx.samples) < 6:
             ctx.samples.append(s)
-    per_sig = ctx.extra.setdefault("_per_sig", {})
+    per_sig = ctx.extra.setdefault("oracle_failures_by_signature", {})
     for what, sig, case in out["fails"]:
         k = leanio.canon(sig)
         per_sig[k] = per_sig.get(k, 0) + 1
         if per_sig[k] <= 3:
-            ctx.oracle_fail(what, {"case": case}, sig)
+            ctx.oracle_fail(what, _rp(case), sig)
     if not ask or not out["reqs"]:
         return
     try:
@@ -1101,13 +1143,27 @@ def absorb(ctx: Ctx, out: dict, ask: bool = True) -> None:
         ctx.tie_fail(f"Lean driver failed: {e}", {"log": e.log[-2000:]})
         return
     for (what, req, impl, case), ans in zip(out["reqs"], answers):
-        ctx.compare(f"C18 {what}", impl, ans, {"case": case, "request": req})
+        ctx.compare(f"C18 {what}", impl, ans, {**_rp(case), "request": req})
         ctx.count("tie", what.split("(")[0])
     ctx.traces += len(answers)
 
 
+def _rp(case: dict) -> dict:
+    """replay payload; `case_json` keeps the key order (core writes replays with sorted keys, and the
+    order of dict keys decides the order of the operations jsonpatch emits)."""
+    return {"case": case, "case_json": json.dumps(case, ensure_ascii=False)}
+
+
+def _case_of(d: dict) -> dict | None:
+    if not isinstance(d, dict):
+        return None
+    if "case_json" in d:
+        return json.loads(d["case_json"])
+    return d.get("case")
+
+
 def corpus_cases() -> list[dict]:
-    return [data["case"] for _, data in load_corpus(ID) if isinstance(data, dict) and "case" in data]
+    return [c for c in (_case_of(data) for _, data in load_corpus(ID)) if c is not None]
 
 
 def run(ctx: Ctx) -> None:
@@ -1134,7 +1190,7 @@ def search(ctx: Ctx, broken: list) -> None:
 
 def replay(ctx: Ctx, data: dict) -> None:
     rp = data.get("replay") or {}
-    case = rp.get("case") or (rp.get("input") or {}).get("case") or (data.get("first") or {}).get("input", {}).get("case")
+    case = _case_of(rp) or _case_of(rp.get("input") or {}) or _case_of((data.get("first") or {}).get("input") or {})
     if case is None:
         run(ctx)
         return
